@@ -385,8 +385,107 @@ def corpus():
     return out_cases
 
 
+# ---- content reached by other construction routes --------------------------------------------------------------------------
+def _a2spec(a):
+    """C18's abstract datum (tuples) -> the reference model's Plutus data (lists)"""
+    k = a[0]
+    if k == "constr":
+        return ["constr", a[1], [_a2spec(x) for x in a[2]]]
+    if k == "list":
+        return ["list", [_a2spec(x) for x in a[1]]]
+    if k == "map":
+        return ["map", [[_a2spec(x), _a2spec(y)] for x, y in a[1]]]
+    return [k, a[1]]
+
+
+def check_typed_datum(ctx, case):
+    """case = {kind: typed-datum, tseed}: a PlutusData dataclass instance whose Dict field is keyed by constructors, carried as
+    an inline datum, as a witness-set datum and as a redeemer: the bytes are those of the reference for that datum"""
+    import pycardano as pc
+    from checks.c18 import build_typedkey
+    from pycardano.plutus import ExecutionUnits, Redeemer, RedeemerKey, RedeemerMap, RedeemerTag, RedeemerValue
+    a, tobj, _, _, nf = build_typedkey(case["tseed"])
+    data = _a2spec(a)
+    w = C.WireChoices()
+    addr = b"\x61" + bytes(28)
+    o = {"addr": addr, "value": {"coin": 2_000_000, "assets": []}, "datum": {"k": "inline", "data": data}, "script": None}
+    routes = []
+    routes.append(("output", C.encode_part("output", o, w, "0"),
+                   lambda: pc.TransactionOutput(pc.Address.from_primitive(addr), pc.Value(2_000_000), datum=tobj, post_alonzo=True).to_cbor()))
+    routes.append(("plutus_data", C.encode_part("plutus_data", data, w, "0"), tobj.to_cbor))
+    rk = RedeemerKey(RedeemerTag.SPEND, 0)
+    routes.append(("redeemers", R.enc(R.Map([([0, 0], [C.t_pdata(data, w), [5, 7]])])),
+                   lambda: RedeemerMap({rk: RedeemerValue(tobj, ExecutionUnits(5, 7))}).to_cbor()))
+    for name, exp, f in routes:
+        try:
+            got = f()
+        except Exception as e:  # noqa: BLE001
+            got = None
+            err = f"{type(e).__name__}: {str(e)[:120]}"
+        ctx.count("typed-datum:" + name)
+        if got != exp:
+            ctx.violation(f"{name} carrying a typed datum with constructor map keys ({nf} key fields): bytes differ from the reference",
+                          case, exp.hex(), got.hex() if got is not None else err)
+    ctx.case(case)
+
+
+def check_value_history(ctx, case):
+    """case = {kind: value-history, seed}: the same value content reached through arithmetic / in-place edits (zero
+    quantities and emptied policies left behind) is written as the CDDL prescribes for that content"""
+    import random as _r
+    import pycardano as pc
+    rng = _r.Random(case["seed"])
+    npol = rng.choice([0, 1, 1, 2])
+    final = []
+    v = pc.Value(rng.choice([0, 1, 23, 24, 10**6, 2**32]))
+    for i in range(npol):
+        pid = bytes([0xA0 + i]) * 28
+        names = []
+        for j in range(rng.choice([1, 2])):
+            names.append((bytes([j + 1]) * rng.choice([0, 1, 4]) if j else b"", rng.choice([1, 5, 2**40])))
+        names = list(dict(names).items())
+        final.append([pid, [[n, q] for n, q in names]])
+        v.multi_asset[pc.ScriptHash(pid)] = pc.Asset({pc.AssetName(n): q for n, q in names})
+    # leftovers: entries driven to zero in place, an emptied policy, an added-and-removed token
+    for i in range(rng.choice([1, 2, 3])):
+        how = rng.choice(["isub", "zero-entry", "empty-policy", "add-sub"])
+        pid = pc.ScriptHash(bytes([0xC0 + i]) * 28)
+        nm = pc.AssetName(b"z")
+        if how == "isub":
+            v.multi_asset[pid] = pc.Asset({nm: 3})
+            v.multi_asset[pid] -= pc.Asset({nm: 3}) if rng.random() < 0.5 else pc.Asset({nm: 3})
+        elif how == "zero-entry":
+            v.multi_asset[pid] = pc.Asset({nm: 0})
+        elif how == "empty-policy":
+            v.multi_asset[pid] = pc.Asset()
+        else:
+            extra = pc.Value(0, pc.MultiAsset({pid: pc.Asset({nm: 9})}))
+            v = v + extra - extra
+        ctx.count("value-history:" + how)
+    spec = {"coin": v.coin, "assets": final}
+    w = C.WireChoices(default_output="map")
+    exp = C.encode_part("value", spec, w, "0")
+    addr = b"\x61" + bytes(28)
+    exp_o = C.encode_part("output", {"addr": addr, "value": spec, "datum": None, "script": None}, w, "0")
+    for name, e, f in (("value", exp, v.to_cbor),
+                       ("output", exp_o, lambda: pc.TransactionOutput(pc.Address.from_primitive(addr), v, post_alonzo=True).to_cbor())):
+        try:
+            got = f()
+        except Exception as ex:  # noqa: BLE001
+            got = None
+            err = f"{type(ex).__name__}: {str(ex)[:120]}"
+        if got != e:
+            ctx.violation(f"{name} whose content was reached through arithmetic / in-place edits: bytes differ from the reference for that content",
+                          {**case, "content": C.to_json(spec)}, e.hex(), got.hex() if got is not None else err)
+    ctx.case(case)
+
+
 def dispatch(ctx, case):
     k = case["kind"]
+    if k == "typed-datum":
+        return check_typed_datum(ctx, case)
+    if k == "value-history":
+        return check_value_history(ctx, case)
     if k == "tx":
         check_tx(ctx, C.from_json(case["spec"]), C.WireChoices.from_json(case["wire"]))
     elif k == "part":
@@ -406,6 +505,8 @@ def run(ctx):
                 "each transaction AND each part (output, value, multi-asset, certificate, pool parameters, relay, credential, "
                 "DRep, anchor, voter, vote, voting procedures, proposal, governance action, parameter update, native script, "
                 "redeemer(s), Plutus datum, metadata, auxiliary data, witness set, body) is compared with the reference bytes; "
+                "typed PlutusData instances with constructor-keyed maps as inline datum / witness datum / redeemer; values whose content "
+                "was reached through arithmetic and in-place edits (zero quantities, emptied policies left behind); "
                 "plus a hand-written corpus pinning every rule and every hex fixture of /repo/test lifted and re-encoded; "
                 "a case is non-trivial when at least one of its parts was serialized and compared")
     ctx.assumptions = [
@@ -436,6 +537,10 @@ def run(ctx):
         tx = G.gen_spec_tx(rng, cov)
         wire = G.gen_wire(rng, tx, cov, "c02")
         check_tx(ctx, tx, wire, part_limit=None if i % 4 == 0 else 14)
+    for i in range(ctx.budget(120, 3000)):
+        dispatch(ctx, {"kind": "typed-datum", "tseed": f"{ctx.seed}-k{i}"})
+    for i in range(ctx.budget(200, 5000)):
+        dispatch(ctx, {"kind": "value-history", "seed": f"{ctx.seed}-v{i}"})
     missing = cov.missing(G.universe())
     ctx.extra["coverage_universe"] = len(G.universe())
     ctx.extra["coverage_missing"] = missing
